@@ -272,3 +272,14 @@ def reachable_under(node, fn_node, oracle):
         if v is not None and v != pol:
             return False
     return True
+
+
+def necessarily_reached_under(node, fn_node, oracle):
+    """True if every condition on the way to `node` is *decided* in favour
+    of reaching it by the oracle's assignment (no condition is left open):
+    -> (bool, the first undecided / contrary condition)."""
+    for e, pol in guards(node, fn_node):
+        v = eval3(e, oracle)
+        if v is None or v != pol:
+            return False, (e, pol, v)
+    return True, None
